@@ -171,8 +171,10 @@ def session_family(rnd, n):
             g, scr = S.generic_call(rnd, route, mode="connected", script={"status": 0, "ext": [], "data": [1, 2]})
             g2, scr2 = S.generic_call(rnd, route, mode="ucsend", script={"status": 0, "ext": [], "data": [3]})
             g2["kwargs"]["route_path"] = True
-            g2["intent"].update({"hasroute": 1, "routesegs": route})
-            sc["calls"] = [{"api": "open"}, g, g2, {"api": "close"}]
+            g2["intent"].update({"hasroute": 1, "routesegs": route, "cfgroute": 1})
+            # the configured route keeps denoting the same target whatever was asked in between (module info of other slots)
+            mods = [{"api": "get_module_info", "slot": sl, "intent": {"slot": sl}} for sl in rnd.sample([0, 1, 3, 5, 9, 16], rnd.choice([0, 1, 2]))]
+            sc["calls"] = [{"api": "open"}] + mods + [g, g2, {"api": "close"}] + ([{"api": "open"}, {"api": "close"}] if i % 2 else [])
             sc["target"]["script"] = [scr, scr2]
         elif kind == "logix":
             sc["project"], sc["mem"] = small_project(rnd)
